@@ -3,6 +3,7 @@ from contracts import c_dynmat as D
 from contracts import lemmas_dynmat as L
 from contracts import py_svecs as PS
 from contracts import py_symmetry as PY
+from contracts import py_phonopy as PP
 
 
 def build(run):
@@ -14,5 +15,6 @@ def build(run):
     L.scaling(run)
     PS.primitive_svecs_transform(run)
     PY.pointgroup_operations(run)
+    PP.masses_setter_index_functions(run)      # mass scaling reaches all three cells consistently
     run.not_decided += ["invariance of the spectrum under q -> q + G and q -> R q (needs angle addition and unitary similarity of spectra)",
                         "three zero eigenvalues at Gamma from the acoustic sum rule (eigenvalue reasoning)"]
